@@ -8,9 +8,18 @@ package main
 //   S<i> APPEND <mbox> <flags|-> <marker> | S<i> IDLE | S<i> DONE | S<i> PROBE
 //   C CREATE <marker> <mboxID> <flags|-> | C ADD <marker> <mboxID> | C REMOVE <marker> <mboxID>
 //   C SEEN <marker> <0|1> | C FLAGGED <marker> <0|1> | C DELETE <marker>
-//   X BARRIER | X HOLD <i> | X RELEASE <i> <k> | X CONVERGE
+//   X BARRIER | X HOLD <i> | X RELEASE <i> <k> | X CONVERGE | X RACY
+//
+// Scheduling: unless the history starts with `X RACY`, every session step first waits until all
+// sessions have applied the state updates queued so far (a barrier on the states only; the connector
+// is NOT flushed). Updates are then applied-but-unflushed when the command runs, which is the case
+// the flush logic has to get right; what is excluded is a command overtaking an update that is
+// still in flight to its own session. That interleaving is a genuine but narrow race on the real
+// server (it made ~1 of 500 histories fail non-reproducibly); `X HOLD` produces it deterministically
+// and is the way to test it (profile `hold`), `X RACY` (profile `race`) restores free running.
 
 import (
+	"context"
 	"fmt"
 	"os"
 	"os/exec"
@@ -55,6 +64,7 @@ type HistSession struct {
 type Violation struct {
 	Prop string
 	Desc string
+	Step int // index (into HistRunner.steps) of the step during which it was detected
 }
 
 type HistRunner struct {
@@ -71,6 +81,7 @@ type HistRunner struct {
 	mboxes     []string // names == remote ids except INBOX ("0")
 	// per history
 	expungeDuring map[string]int
+	racy          bool // X RACY seen: session commands do not wait for in-flight updates
 }
 
 func mboxID(name string) imap.MailboxID {
@@ -85,7 +96,7 @@ func NewHistRunner(sys *Sys) *HistRunner {
 }
 
 func (h *HistRunner) violate(prop, desc string) {
-	h.violations = append(h.violations, Violation{prop, desc})
+	h.violations = append(h.violations, Violation{prop, desc, len(h.steps) - 1})
 }
 
 func (h *HistRunner) setupMailboxes() error {
@@ -170,6 +181,14 @@ func (h *HistRunner) feed(s *HistSession, kind string, untagged []string) {
 }
 
 // ---- executing steps ---------------------------------------------------------------------
+
+// quiesceStates: every session has applied every state update queued so far. Unlike Sys.Barrier the
+// connector is not flushed, so the timing of connector events stays under the history's control.
+func (h *HistRunner) quiesceStates() error {
+	ctx, c := context.WithTimeout(context.Background(), 20*time.Second)
+	defer c()
+	return h.sys.Server.VerifBarrier(ctx, h.sys.UserID)
+}
 
 func (h *HistRunner) session(i int) *HistSession {
 	for len(h.sess) <= i {
@@ -260,6 +279,8 @@ func (h *HistRunner) exec1(step string) error {
 			}
 		case "CONVERGE":
 			return h.converge()
+		case "RACY":
+			h.racy = true
 		}
 		return nil
 	case f[0] == "C":
@@ -348,6 +369,11 @@ func (h *HistRunner) execSession(i int, op string, args []string, step string) e
 	if s == nil {
 		return nil
 	}
+	if !h.racy {
+		if err := h.quiesceStates(); err != nil {
+			return err
+		}
+	}
 	switch op {
 	case "SELECT", "EXAMINE":
 		if s.idle {
@@ -401,6 +427,7 @@ func (h *HistRunner) execSession(i int, op string, args []string, step string) e
 		if rep.Err != nil {
 			return fmt.Errorf("S%d %s: %w", i, line, rep.Err)
 		}
+		defer vlog("   S%d => %s", s.idx, rep.Tagged)
 		if kind == "CLOSE" || kind == "UNSELECT" {
 			if rep.Status == "OK" {
 				s.selected = ""
@@ -589,18 +616,27 @@ func (h *HistRunner) converge() error {
 			return rep2.Err
 		}
 		h.feedProbe(s, rep2)
+		nStates := len(h.sys.Server.VerifStates(h.sys.UserID))
 		fresh, err := h.sys.Dial("fresh")
 		if err != nil {
 			return err
 		}
 		fresh.Login("user")
-		if r := fresh.Cmd("EXAMINE " + s.selected); r.Status != "OK" {
-			fresh.Close()
-			continue // mailbox gone
+		r := fresh.Cmd("EXAMINE " + s.selected)
+		var want []FetchedMsg
+		if r.Status == "OK" {
+			want, _ = fresh.FetchAll()
 		}
-		want, _ := fresh.FetchAll()
 		fresh.Cmd("LOGOUT")
 		fresh.Close()
+		// the server removes the state of a finished session asynchronously; a state barrier taken meanwhile
+		// would wait for a session that no longer reads its queue
+		for k := 0; k < 400 && len(h.sys.Server.VerifStates(h.sys.UserID)) > nStates; k++ {
+			time.Sleep(5 * time.Millisecond)
+		}
+		if r.Status != "OK" {
+			continue // mailbox gone
+		}
 		a, b := viewString(msgs), viewString(want)
 		h.stats["converge"]++
 		if len(msgs) > 0 {
@@ -666,6 +702,9 @@ func (h *HistRunner) newMarker() string {
 
 // GenStep picks the next step given the current state.
 func (h *HistRunner) GenStep(r *Rng, nsess int, profile string) string {
+	if strings.Contains(profile, "race") && !h.racy && len(h.steps) == 0 {
+		return "X RACY"
+	}
 	// make sure sessions exist and have a mailbox selected most of the time
 	for i := 0; i < nsess; i++ {
 		if h.session(i) == nil {
